@@ -27,7 +27,7 @@ func init() {
 		Rule: "pairs (to, from) of the six supported kinds (Object typed and type-less, Actor, Collection, CollectionPage, OrderedCollection, OrderedCollectionPage): for every property of the struct " +
 			"(merged or not) the four set/unset combinations with different values on the two sides, against four backgrounds (others unset / set on to / set on from / set on both, different values); " +
 			"property pairs x 16 combinations; refusals: nil and typed nil on either side, non-equivalent ids (host, path, query), equivalent-but-different ids (scheme, case, slash: must be accepted), " +
-			"different type, unsupported types, struct mismatch; oracle = reference merge clauses on reflection snapshots; non-trivial = at least one property set on either side",
+			"different type, unsupported types, struct mismatch; an accepted merge leaves to with exactly from's id and type; oracle = reference merge clauses on reflection snapshots; non-trivial = at least one property set on either side",
 		Assumptions: []string{"reading D11: 'unsupported' is judged on to's non-empty type; hosts carry specific type names (Note, Person) or none"},
 		Bound: func(tier string) string {
 			return map[string]string{"quick": "", "thorough": "property triples x 64 combinations; "}[tier] + "single properties x 4 x 4 and property pairs x 16 on 7 (to,from) kinds; nil matrix; refusal grid; per property up to 5 further value pairs (same identities objectified / permuted / shrunk, 17 and 33 members, tag-only and last-byte text changes, instants at and before the epoch, sub-second change)"
